@@ -10,7 +10,7 @@ from vf.common import CEIL, Violation
 from vf.hh_common import cell_weights
 from vf.world import CELLMAP, sut
 
-from sketchnu.countmin import CountMinLog8, CountMinLog16
+from sketchnu.countmin import CountMin, CountMinLog8, CountMinLog16
 
 RULE = (
     "(1) configuration grid: max_count in {10^k, 3*10^k, 2^k-1, 2^k, 2^k+1 for all k in range, 256, 257, 300, 400, 65536, 65537, 70000} x num_reserved 0..254 "
@@ -39,11 +39,14 @@ def check_config(kind, mc, nr):
     cls = CountMinLog8 if kind == "log8" else CountMinLog16
     umax = UMAX[kind]
     try:
-        sk = cls(2, 1, mc, nr)
+        # through the class, or through the documented CountMin() convenience function
+        sk = cls(2, 1, mc, nr) if (mc + nr) % 3 else CountMin(kind, 2, 1, mc, nr)
     except ValueError:
         return "rejected"
     except Exception as e:
         raise Violation(f"{kind}(max_count={mc}, num_reserved={nr}): constructor raised {type(e).__name__}: {e} (neither ValueError nor a sketch)", "constructor-exception")
+    if int(sk.max_count) != mc or int(sk.num_reserved) != nr or type(sk) is not cls:
+        raise Violation(f"{kind}(max_count={mc}, num_reserved={nr}) built a {type(sk).__name__} with max_count={int(sk.max_count)}, num_reserved={int(sk.num_reserved)}", "wrong-parameters")
     base = float(sk.base)
     if not (math.isfinite(base) and base > 1.0):
         raise Violation(f"{kind}(max_count={mc}, num_reserved={nr}) accepted with base={base!r}", "bad-base")
@@ -218,7 +221,7 @@ def _shard(arg):
         self.do(step)
 
     M = machines.make_machine(
-        "C18Machine", CeilingChecker, rec, holder, CFG=CFG, N=2, NGRAM=False, MAXKEY=6, DRAWS=None,
+        "C18Machine", CeilingChecker, rec, holder, SELF_MERGE=True, CFG=CFG, N=2, NGRAM=False, MAXKEY=6, DRAWS=None,
         add=add, update_dict=update_dict, update_list=update_list,
     )
     common.run_machine(M, common.derive_seed(seed, "C18", shard), n_examples, steps, holder, rec, retry=lambda c_: machines.replay_trace(c_, CeilingChecker))
